@@ -194,7 +194,7 @@ class C08(Check):
         self.m_lt = T_L_TARGETS if t else Q_L_TARGETS
         self.m_st = S_TARGETS if t else Q_S_TARGETS
         self.m_lc = T_L_CHAINS if t else Q_L_CHAINS
-        self.m_sc = S_CHAINS if t else Q_S_CHAINS
+        self.m_sc = S_CHAINS[:10] if t else Q_S_CHAINS     # the rest: star sample and pairs
         self.m_lroots = T_L_ROOTS if t else Q_L_ROOTS
         self.m_sroots = S_ROOTS if t else Q_S_ROOTS
         self.lgs = {p: LedgerGen(Rng("c08-ledger"), p) for p in L.VALUE_PROFILES}
@@ -419,7 +419,7 @@ class C08(Check):
 
     def pair_values(self, plat, dim):
         if dim == "chain":
-            return list(L_CHAINS if plat == "ledger" else self.m_sc)
+            return list(L_CHAINS if plat == "ledger" else S_CHAINS)
         if dim == "pubkeys":
             vals = list(self.m_lpk if plat == "ledger" else self.m_spk)
             return vals + [x for x in ("no-file",) if x not in vals]
@@ -567,7 +567,7 @@ class C08(Check):
                 alts = {"chain": L_CHAINS[1:], "targets": L_TARGETS[1:], "ui": list(UI_VARIANTS)[1:],
                         "pubkeys": list(self.pkv("base"))[1:], "root": L_ROOTS[1:]}
         else:
-            alts = {"chain": self.m_sc[1:], "targets": self.m_st[1:], "pubkeys": self.m_spk[1:],
+            alts = {"chain": S_CHAINS[1:], "targets": self.m_st[1:], "pubkeys": self.m_spk[1:],
                     "root": self.m_sroots[1:]}
         out = [dict(base)] + [dict(base, values=p) for p in L.VALUE_PROFILES[1:]]
         for dim, names in alts.items():
